@@ -148,7 +148,7 @@ Section swap.
   Global Instance swapf_inj : Inj (=) (=) (swapf p q).
   Proof. intros a b H. by rewrite <- (swapf_invol a), H, swapf_invol. Qed.
 
-  Lemma move_tree_lookup (d : disk) k :
+  Lemma move_tree_lookup {A} (d : gmap (list N) A) k :
     move_tree p q d !! k = if under p k then None else d !! (swapf p q k).
   Proof.
     unfold move_tree. rewrite map_filter_lookup.
@@ -158,11 +158,11 @@ Section swap.
     case_option_guard; destruct (under p k); congruence.
   Qed.
 
-  Lemma move_tree_lookup_other (d : disk) k :
+  Lemma move_tree_lookup_other {A} (d : gmap (list N) A) k :
     under p k = false -> under q k = false -> move_tree p q d !! k = d !! k.
   Proof. intros H1 H2. by rewrite move_tree_lookup, H1, swapf_other. Qed.
 
-  Lemma move_tree_lookup_q (d : disk) r : move_tree p q d !! (q ++ r) = d !! (p ++ r).
+  Lemma move_tree_lookup_q {A} (d : gmap (list N) A) r : move_tree p q d !! (q ++ r) = d !! (p ++ r).
   Proof.
     rewrite move_tree_lookup, swapf_under_q.
     destruct (under p (q ++ r)) eqn:E; [|done].
@@ -170,7 +170,7 @@ Section swap.
   Qed.
 End swap.
 
-Lemma remove_tree_lookup (d : disk) p k :
+Lemma remove_tree_lookup {A} (d : gmap (list N) A) p k :
   remove_tree p d !! k = if under p k then None else d !! k.
 Proof.
   unfold remove_tree. rewrite map_filter_lookup.
@@ -179,10 +179,10 @@ Proof.
 Qed.
 
 (* ------------------------------------------------------------------------------- well-formed trees *)
-Lemma disdir_spec d k : disdir d k = true <-> k = [] \/ d !! k = Some Dir.
+Lemma disdir_spec d k : disdir d k = true <-> k = [] \/ exists t, d !! k = Some (Dir t).
 Proof.
   unfold disdir. destruct k; [naive_solver|].
-  destruct (d !! (n :: k)) as [[c|]|]; naive_solver.
+  destruct (d !! (n :: k)) as [[c t|t]|]; naive_solver.
 Qed.
 
 Lemma dexists_spec d k : dexists d k = true <-> k = [] \/ is_Some (d !! k).
@@ -202,7 +202,7 @@ Proof.
   destruct (Hwf _ _ Hn) as [_ Hd]. rewrite parent_snoc in Hd.
   destruct r as [|y r'] using rev_ind; [by rewrite app_nil_r in Hd|clear IHr'].
   apply IH; [|by destruct r'].
-  apply disdir_spec in Hd as [Hd|Hd]; [by destruct p, r'|eauto].
+  apply disdir_spec in Hd as [Hd|[t Hd]]; [by destruct p, r'|eauto].
 Qed.
 
 Lemma wf_under_exists d p k :
@@ -227,4 +227,57 @@ Lemma wf_not_exists_under d q k :
 Proof.
   intros Hwf Hq Hn Hu. destruct (d !! k) eqn:E; [|done].
   assert (dexists d q = true) by (eapply wf_under_exists; eauto). congruence.
+Qed.
+
+(* changing a modification time changes nothing else *)
+Lemma set_mt_lookup (t : N) (r : list N) (d : disk) (k : list N) :
+  set_mt t r d !! k = if decide (k = r) then set_node_mt t <$> d !! k else d !! k.
+Proof.
+  unfold set_mt. destruct (decide (k = r)) as [->|Hne]; [by rewrite lookup_alter|by rewrite lookup_alter_ne].
+Qed.
+
+Lemma set_mt_kind (t : N) (r : list N) (d : disk) (k : list N) : kind_of <$> set_mt t r d !! k = kind_of <$> d !! k.
+Proof. rewrite set_mt_lookup. destruct (decide (k = r)); [|done]. by destruct (d !! k) as [[]|]. Qed.
+
+Lemma set_mt_is_Some (t : N) (r : list N) (d : disk) (k : list N) : is_Some (set_mt t r d !! k) <-> is_Some (d !! k).
+Proof. rewrite set_mt_lookup. destruct (decide (k = r)); [|done]. by rewrite fmap_is_Some. Qed.
+
+Lemma set_mt_disdir (t : N) (r : list N) (d : disk) (k : list N) : disdir (set_mt t r d) k = disdir d k.
+Proof.
+  unfold disdir. destruct k; [done|]. rewrite set_mt_lookup.
+  destruct (decide (n :: k = r)); [|done]. by destruct (d !! (n :: k)) as [[]|].
+Qed.
+
+Lemma set_mt_dexists (t : N) (r : list N) (d : disk) (k : list N) : dexists (set_mt t r d) k = dexists d k.
+Proof. unfold dexists. destruct k; [done|]. apply bool_decide_ext, set_mt_is_Some. Qed.
+
+Lemma set_mt_wf (t : N) (r : list N) (d : disk) : wf_disk d -> wf_disk (set_mt t r d).
+Proof.
+  intros Hwf k n Hk. assert (is_Some (d !! k)) as [n' Hn'] by (apply (set_mt_is_Some t r); eauto).
+  destruct (Hwf _ _ Hn') as [? Hd]. split; [done|]. by rewrite set_mt_disdir.
+Qed.
+
+Lemma touch_under_lookup (t : N) (q : list N) (d : disk) (k : list N) :
+  touch_under t q d !! k = (fun n => if under q k then set_node_mt t n else n) <$> d !! k.
+Proof. unfold touch_under. rewrite map_lookup_imap. by destruct (d !! k). Qed.
+
+Lemma touch_under_other (t : N) (q : list N) (d : disk) (k : list N) :
+  under q k = false -> touch_under t q d !! k = d !! k.
+Proof. intros H. rewrite touch_under_lookup, H. by destruct (d !! k). Qed.
+
+Lemma touch_under_is_Some (t : N) (q : list N) (d : disk) (k : list N) :
+  is_Some (touch_under t q d !! k) <-> is_Some (d !! k).
+Proof. rewrite touch_under_lookup. by rewrite fmap_is_Some. Qed.
+
+Lemma touch_under_disdir (t : N) (q : list N) (d : disk) (k : list N) :
+  disdir (touch_under t q d) k = disdir d k.
+Proof.
+  unfold disdir. destruct k; [done|]. rewrite touch_under_lookup.
+  destruct (d !! (n :: k)) as [[]|]; cbn; try done; by destruct (under q (n :: k)).
+Qed.
+
+Lemma touch_under_wf (t : N) (q : list N) (d : disk) : wf_disk d -> wf_disk (touch_under t q d).
+Proof.
+  intros Hwf k n Hk. assert (is_Some (d !! k)) as [n' Hn'] by (apply (touch_under_is_Some t q); eauto).
+  destruct (Hwf _ _ Hn') as [? Hd]. split; [done|]. by rewrite touch_under_disdir.
 Qed.
